@@ -50,13 +50,31 @@ def infeasible(rng, d, kind):
     return [float(x) for x in p]
 
 
+CURRENT = {"ctx": None, "reported": set()}
+
+
+def global_state():
+    """process-wide NumPy state a library call has no business leaving changed"""
+    return (repr(sorted(np.geterr().items())), repr(sorted((k, repr(v)) for k, v in np.get_printoptions().items())))
+
+
 def classify(fn):
+    g0 = global_state()
     try:
         with core.quiet():
             r = fn()
-        return "returned", r
+        out = ("returned", r)
     except Exception as e:  # noqa
-        return type(e).__name__, str(e)[:80]
+        out = (type(e).__name__, str(e)[:80])
+    g1 = global_state()
+    if g1 != g0:
+        ctx = CURRENT["ctx"]
+        np.seterr(**dict(eval(g0[0])))           # put it back, so that one leak is reported once, at the call that caused it
+        if ctx is not None and g1 not in CURRENT["reported"]:
+            CURRENT["reported"].add(g1)
+            ctx.violation("c19:global-state-changed", "a public call (outcome %s) left NumPy's process-wide error mode / print options changed: "
+                          "later calls with the same arguments are answered differently" % out[0], {"before": g0, "after": g1, "outcome": out[0], "detail": str(out[1])[:120]})
+    return out
 
 
 def error_cases(ctx, A, C, R, rng, tier):
@@ -175,7 +193,9 @@ def snap(x):
 
 
 def consts(LP):
-    return (snap(np.asarray(LP.Id.coefs)), LP.Id.dmin, LP.Id.iszero, snap(np.asarray(LP.w.coefs)), LP.w.dmin, LP.w.iszero,
+    # besides the algebra constants: NumPy's process-wide error mode and print options (a call that leaves them changed
+    # changes what LATER calls do - the same arguments are then answered differently depending on history)
+    return (repr(sorted(np.geterr().items())), repr(sorted((k, repr(v)) for k, v in np.get_printoptions().items())), snap(np.asarray(LP.Id.coefs)), LP.Id.dmin, LP.Id.iszero, snap(np.asarray(LP.w.coefs)), LP.w.dmin, LP.w.iszero,
             snap(np.asarray(LP.iX.IPoly.coefs)), LP.iX.IPoly.iszero, snap(np.asarray(LP.iX.XPoly.coefs)), LP.iX.XPoly.dmin)
 
 
@@ -297,6 +317,18 @@ def history_cases(ctx, mods, rng, tier):
             ("angle_sequence", lambda a: A.angle_sequence(a, eps=1e-4, suc=1 - 1e-4), Fc, Fq),
             ("completion_from_root_finding:F", lambda a: C.completion_from_root_finding(a, coef_type="F"), Fc, Fq),
         ][int(rng.integers(0, 3))]
+        if rng.random() < 0.5:
+            # requests that cannot be served take part in histories like any other: X and / or Y infeasible (scaled past 1)
+            which = int(rng.integers(0, 3))
+            fx, fy = float(rng.uniform(2.0, 4.0)), float(rng.uniform(2.0, 4.0))
+            if which in (0, 2):
+                y = y * fy / 0.6
+            if which in (1, 2):
+                x = x * fx / 0.6
+            if name != "QuantumSignalProcessingPhases" and rng.random() < 0.5:
+                # ... and the other KIND of call in between: an infeasible phase-finding request before a direct completion
+                classify(lambda: A.QuantumSignalProcessingPhases(list(np.array([1.3, 0.0, -1.3]) * float(rng.uniform(1, 2))), signal_operator=so))
+            ctx.count("history:with-infeasible-requests")
         s1, s2 = (int(v) for v in rng.integers(0, 2 ** 31, size=2))
         np.random.seed(s1); classify(lambda: f(x.copy()))
         np.random.seed(s2); ob, rb = classify(lambda: f(x.copy()))
@@ -324,6 +356,7 @@ def run(tier, seed):
     import pyqsp.decomposition as D
     import pyqsp.sym_qsp_opt as S
     np.random.seed(int(seed) % (2 ** 31))
+    CURRENT["ctx"], CURRENT["reported"] = ctx, set()
     error_cases(ctx, A, C, R, ctx.rng, tier)
     purity_cases(ctx, (A, C, R, LP, D, S), ctx.rng, tier)
     history_cases(ctx, (A, C, R, LP, D, S), ctx.rng, tier)
